@@ -119,3 +119,23 @@ func verifWKTUnmarshal(b []byte) (seconds int64, nanos int32, ok bool) {
 	}
 	return seconds, nanos, true
 }
+
+// c20S / c20B: the string / byte-string leaves of a generated value: short, or - on the path that selects
+// "long" - 131+ bytes, beyond the one-byte range of a protobuf length prefix.
+func c20S(s string, long bool) string {
+	if long {
+		return s + "-0123456789abcdef0123456789abcdef0123456789abcdef0123456789abcdef0123456789abcdef0123456789abcdef0123456789abcdef0123456789abcdef"
+	}
+	return s
+}
+
+func c20B(b []byte, long bool) []byte {
+	if long {
+		out := append([]byte{}, b...)
+		for i := 0; i < 130; i++ {
+			out = append(out, byte(i))
+		}
+		return out
+	}
+	return b
+}
